@@ -9,6 +9,7 @@
 -/
 import LzmaVerif.Proofs.Bt4Access
 import LzmaVerif.Proofs.Bt4Tree
+import LzmaVerif.Proofs.Bt4BstInv
 namespace LzmaVerif.Mf.Bt4
 
 /-- (B1) every state reachable by a script of finds and skips satisfies the invariant `Inv`: every
@@ -54,7 +55,31 @@ theorem bt4_indices_in_bounds {P : Bt4Params} {c : Cfg} {data : Array UInt8} (hA
     ∀ l, (runScript P c data script true).1.log = some l → ∀ a ∈ l, AccessOk P c data a :=
   runScript_log hA script
 
-/-- (B5, partial: `depth_limit = 1`; the full statement is in `Proofs/Bt4Tree.lean`) -/
+/-- **(B5)** every match `find` reports in every reachable state - the hash candidates AND the matches of the
+    binary-tree descent, for EVERY `depth_limit`, every input, every dictionary size and every script of
+    `find_matches()` / `skip(n)` calls - is a real repetition from its first byte (`Mf.ValidMatch`, the notion of
+    `hc4_generated_sound`): `data[p + i] = data[p - dist - 1 + i]` for `i < len`, inside data and dictionary,
+    `2 ≤ len ≤ min mlmax avail`.  The tree walk only compares from `min(len0, len1)` on (bt4.rs:241-249); the
+    first `min(len0, len1)` bytes agree because of the binary-search-tree invariant `BInv` / `TInv`
+    (`Proofs/Bt4Bst.lean`): for every live node, everything still reachable through its first / second child slot
+    is older and not larger / not smaller in the lexicographic order truncated to the node's `nice_len_limit`;
+    a descent makes the new node the root and otherwise only removes paths, stale slots are never followed
+    because of the `delta >= cyclic_size` test.
+    Hypotheses (`HypA`, all decidable): `P.ok` (constants / comparison shapes of bt4.rs and hash234.rs),
+    `1 ≤ dict`, `data.size + dict + 2 < 2^31` (no renormalisation), `3 ≤ mlmax`,
+    `minAvailFinishing (= 4) ≤ nice_len ≤ mlmax` (the crate enforces `8 ≤ nice_len ≤ 273 = mlmax`). -/
+theorem bt4_tree_matches_valid {P : Bt4Params} {c : Cfg} {data : Array UInt8} (hA : HypA P c data)
+    (script : List Nat) (logging : Bool) :
+    let s := (runScript P c data script logging).1
+    ∀ m ∈ (find P c data s).2.toList, ValidMatch data c.dict s.pos (min c.mlmax (data.size - s.pos)) m :=
+  (find_bst hA (runScript_inv hA.toHyp script logging) (runScript_binv hA script logging)).2
+
+/-- (B5') the tree invariant itself holds in every reachable state -/
+theorem bt4_bst_reachable {P : Bt4Params} {c : Cfg} {data : Array UInt8} (hA : HypA P c data)
+    (script : List Nat) (logging : Bool) : BInv P c data (runScript P c data script logging).1 :=
+  runScript_binv hA script logging
+
+/-- (B5 for `depth_limit = 1`, under the weaker `Hyp`: also `nice_len = 3` and `nice_len > mlmax`) -/
 theorem bt4_tree_matches_valid_partial {P : Bt4Params} {c : Cfg} {data : Array UInt8} (hH : Hyp P c data)
     (script : List Nat) (logging : Bool) (hdepth : depthLimit P c = 1) :
     let s := (runScript P c data script logging).1
@@ -68,6 +93,7 @@ theorem bt4_checked_match_valid (d : Array UInt8) (dict p limit : Nat) (m : Matc
 
 /-! ### the hypotheses are satisfiable -/
 
+def wHashT : HashParams := { hash2Size := 256, hash3Size := 256, h4Floor := 0xFF }
 def exCfg : Cfg := { dict := 4096, niceLen := 32, mlmax := 273, depth := 0 }
 def exData : Array UInt8 := #[97, 98, 99, 97, 98, 99, 97, 98, 99, 97, 98, 120, 97, 98, 99, 97, 98, 99, 100, 101]
 
@@ -77,6 +103,18 @@ example : HypA {} exCfg exData := ⟨⟨by decide, by decide, by decide, by deci
 example : Inv {} exCfg exData (runScript {} exCfg exData [0, 0, 0, 2, 0, 0] false).1 :=
   (bt4_inv_reachable ⟨by decide, by decide, by decide, by decide, by decide⟩ _ _).1
 example : depthLimit {} { exCfg with depth := 1 } = 1 := by decide
+
+/-- (B5) is not vacuous: default depth (16 + 8/2 = 20 levels), dictionary 64; after `skip(28)` the `find` at
+    position 28 reports a hash candidate (length 6) and a longer match found in the TREE (length 7, distance 22),
+    both covered by `bt4_tree_matches_valid` (small hash tables so that the kernel can evaluate the run; `#eval`
+    gives the same trace with the real table sizes) -/
+def tData : Array UInt8 :=
+  #[97, 98, 99, 100, 101, 67, 95, 97, 98, 99, 100, 101, 65, 95, 97, 98, 99, 100, 101, 66, 95, 97, 98, 99, 100, 101,
+    66, 66, 95, 97, 98, 99, 100, 101, 65, 90, 95, 97, 98, 99, 100, 101, 66, 65, 95, 95]
+example : HypA {} ⟨64, 8, 273, 0⟩ tData :=
+  ⟨⟨by decide, by decide, by decide, by decide, by decide⟩, by decide, by decide⟩
+example : (runScript { hash := wHashT } ⟨64, 8, 273, 0⟩ tData [28, 0]).2 = [(28, [(6, 7), (7, 21)])] := by
+  decide +kernel
 
 /-! ### the parameters matter -/
 
